@@ -13,7 +13,10 @@
 //     add_multiplication_with_approximate_Hessian and all public *_without_penalty functions of the object that holds the prior;
 //   * (subset) sensitivities read from files written by an identical object, and supplied by set_subset_sensitivity_sptr;
 //   * set_up's refusal of unbalanced subsets against an independent count of viewgrams per subset (`balance` lines), the
-//     segment range after set_up (`segrange` lines).
+//     segment range after set_up (`segrange` lines);
+//   * OBJECT RE-USE HISTORIES (run_reuse): one object set_up 2-5 times with a change in between, after every set_up compared with the
+//     model (all quantity lines, and the model object of `hnew`/`hsetup`/`hsub`/`htot`), the textbook oracle and, bit for bit, with a
+//     fresh object configured identically; sensitivity files written by a later set_up, read back by the same and by a second object.
 // Usage: c05_poissonll <seed> <quick|thorough> <opsfile> <implfile>   (scratch files <implfile>.sens_* are removed again)
 #include "stir_fixtures.h"
 #include "common.h"
@@ -395,6 +398,7 @@ struct Out
   // recorded); rec: every (operation, answer) is also appended here
   bool mute = false;
   std::vector<std::pair<std::string, std::string>>* rec = nullptr;
+  std::string where; // appended to every ORACLE-FAIL text (the re-use history in which a check of check_object fails)
   void line(const std::string& op, const std::string& ans)
   {
     if (rec)
@@ -416,7 +420,7 @@ struct Out
       return;
     ++fails;
     if (fails <= 60)
-      std::fprintf(orc, "ORACLE-FAIL %s\n", text.c_str());
+      std::fprintf(orc, "ORACLE-FAIL %s%s\n", text.c_str(), where.c_str());
   }
   void candidate(const std::string& key, const std::string& text)
   {
@@ -1897,6 +1901,9 @@ configure_all(Obj& obj, const Case& k, int n, const FileOpts& f)
   configure(obj, k, n);
   if (!k.c.additive)
     obj.set_additive_proj_data_sptr(shared_ptr<ProjData>());
+  // (set_up replaces the default -1 = "all TOF bins" by the maximum of the data it is given: the setter is called again)
+  if (k.c.maxtof < 0)
+    obj.set_max_timing_pos_num_to_process(-1);
   if (!f.sub.empty())
     obj.set_subsensitivity_filenames(f.sub);
   obj.set_sensitivity_filename(f.tot);
@@ -2018,6 +2025,10 @@ run_reuse(Out& o, const Case& base, const Case* other, vh::Rng& rng, int case_id
       }
   };
   bool prev_accepted = false, prev_wrote = false;
+  // every run contains: write the total / the subset sensitivities at the first set_up, read them back at the second set_up of the same object
+  const int script = thorough ? 0 : case_id % 6 == 0 ? 1 : case_id % 6 == 3 ? 2 : 0;
+  if (script)
+    cur.c.use_subset_sens = script == 2;
   std::map<std::string, long> dummy_hist;
   std::string story;
   o.line("hnew", "ok");
@@ -2029,10 +2040,19 @@ run_reuse(Out& o, const Case& base, const Case* other, vh::Rng& rng, int case_id
       bool full = st == 0;
       bool recompute = true;
       bool same_target_clone = false;
+      bool only_minimal = false;
       const int old_n = n;
       if (st > 0)
         {
-          int m = prev_accepted && prev_wrote && rng.range(0, 2) == 0 ? 11 : rng.range(0, 10);
+          const bool read_back = prev_accepted && prev_wrote && (rng.range(0, 2) == 0 || (script && st == 1));
+          int m = read_back ? 11 : rng.range(0, 11);
+          if (!read_back && m == 11)
+            m = 12;
+          // every run contains the class of input named in known_findings.txt, in both directions (TOF -> non-TOF data: refused; non-TOF -> TOF: part of the data)
+          if (st == 1 && (case_id == 1 || case_id == 2))
+            m = 12;
+          if (m == 12 && !other)
+            m = 9;
           if (m == 10 && !cur.tof)
             m = 9;
           if (m == 5 && cur.c.datamode == 2)
@@ -2100,6 +2120,28 @@ run_reuse(Out& o, const Case& base, const Case* other, vh::Rng& rng, int case_id
               n = pick_n(cur, rng);
               full = true;
               break;
+            case 12: {
+              // other data (other scanner / segments / TOF bins), projectors, additive term and normalisation through their setters;
+              // the segment and TOF range setters are NOT called again: a range that was left at its default (-1 = all of the data)
+              // must be all of the NEW data, a range the caller has set stays
+              what = "data-and-projectors";
+              Case nxt = *other;
+              nxt.c.maxseg = cur.c.maxseg;
+              nxt.c.maxtof = cur.c.maxtof;
+              cur = nxt;
+              n = pick_n(cur, rng);
+              minimal.push_back([&cur](Obj& ob) {
+                ob.set_proj_data_sptr(cur.ydata);
+                ob.set_projector_pair_sptr(cur.pair);
+                ob.set_additive_proj_data_sptr(cur.adata);
+                ob.set_normalisation_sptr(cur.norm);
+                ob.set_zero_seg0_end_planes(cur.c.zero);
+                ob.set_use_subset_sensitivities(cur.c.use_subset_sens);
+              });
+              minimal.push_back([&n](Obj& ob) { ob.set_num_subsets(n); });
+              only_minimal = true;
+              break;
+            }
             case 10: {
               what = "max_timing_pos_num_to_process";
               const int old = cur.c.maxtof;
@@ -2124,7 +2166,7 @@ run_reuse(Out& o, const Case& base, const Case* other, vh::Rng& rng, int case_id
               break;
             }
           // besides, sometimes another number of subsets
-          if (m != 0 && m != 8 && m != 11 && rng.range(0, 2) == 0)
+          if (m != 0 && m != 8 && m != 11 && m != 12 && rng.range(0, 2) == 0)
             n = pick_n(cur, rng);
         }
       if (n != old_n)
@@ -2133,14 +2175,14 @@ run_reuse(Out& o, const Case& base, const Case* other, vh::Rng& rng, int case_id
       FileOpts want = fo;
       want.recompute = recompute;
       want.call_setter = true;
-      if (recompute && (st == 0 ? rng.coin() : rng.range(0, 2) == 0))
+      if (recompute && (st == 0 ? (rng.coin() || script) : rng.range(0, 2) == 0))
         {
           if (cur.c.use_subset_sens)
             want.sub = subname;
           else
             want.tot = want.tot.empty() ? totname : std::string();
         }
-      if (!full && rng.coin())
+      if (!full && !only_minimal && rng.coin())
         full = true;
       // a new object whose recompute_sensitivity is never set: without file names set_up decides to compute (and leaves the member on)
       if (st == 0 && want.tot.empty() && want.sub.empty() && rng.coin())
@@ -2197,19 +2239,6 @@ run_reuse(Out& o, const Case& base, const Case* other, vh::Rng& rng, int case_id
         if (H->set_up(target) != Succeeded::yes)
           throw 1;
       });
-      {
-        // the model object goes through the same set_up (`setUpSens` on the state the earlier set_ups left)
-        const SensSubsets ss = sens_subsets(cur, accH ? (!cur.tof || H->get_use_tofsens()) : cur.same_proj, n);
-        if (ss.ok)
-          {
-            std::string op = std::string("hsetup ") + (cur.c.use_subset_sens ? "1 " : "0 ") + std::to_string(n) + " "
-                             + (fo.call_setter ? (recompute ? "1" : "0") : "-") + " " + (fo.tot.empty() ? "0" : "1") + " " + (fo.sub.empty() ? "0" : "1") + " "
-                             + (ss.balanced ? "1" : "0") + " " + (accH && cur.tof && !H->get_use_tofsens() ? "1" : "0");
-            for (int s = 0; s < n; ++s)
-              op += std::string(s ? " /" : "") + ids_str(ss.ids[s]);
-            o.line(op, std::string(accH ? "ok " : "refused ") + (H->get_recompute_sensitivity() ? "1" : "0"));
-          }
-      }
       Case twin = cur;
       twin.pair = make_pair_with_symmetries(cur.c.symflags);
       FileOpts fF = fo;
@@ -2231,6 +2260,41 @@ run_reuse(Out& o, const Case& base, const Case* other, vh::Rng& rng, int case_id
       });
       ++o.checks;
       ++hist[st == 0 ? "reuse-first-setup" : "reuse-resetup-" + what];
+      if (only_minimal && accF
+          && (!accH || H->get_max_segment_num_to_process() != F->get_max_segment_num_to_process()
+              || H->get_max_timing_pos_num_to_process() != F->get_max_timing_pos_num_to_process()))
+        {
+          // the segment / TOF range the caller never set is still that of the data of the earlier set_up
+          o.candidate("reuse:default-segment-or-TOF-range-of-the-first-data-kept-when-set_up-again-with-other-data",
+                      std::string("object set up with data A (max_segment_num_to_process / max_timing_pos_num_to_process never set: -1 = all of the data), then "
+                                  "set_proj_data_sptr(B) (+ projector pair, additive term, normalisation of B) and set_up again: ")
+                          + (accH ? "segment range " + std::to_string(H->get_max_segment_num_to_process()) + " / TOF range "
+                                        + std::to_string(H->get_max_timing_pos_num_to_process()) + " instead of "
+                                        + std::to_string(F->get_max_segment_num_to_process()) + " / " + std::to_string(F->get_max_timing_pos_num_to_process())
+                                        + " (all of B, what a new object uses): value, gradient, sensitivity and Hessian products are those of part of the data"
+                                  : std::string("set_up fails ('max_segment_num_to_process / max_timing_pos_num_to_process is too large') although the caller never set a range"))
+                          + "; " + ctx);
+          ++hist["reuse-default-range-kept"];
+          prev_accepted = false, prev_wrote = false;
+          // the range setters are called now (what a caller who knows has to do), the history goes on with the next set_up
+          H->set_max_segment_num_to_process(cur.c.maxseg);
+          H->set_max_timing_pos_num_to_process(cur.c.maxtof);
+          continue;
+        }
+      {
+        // the model object goes through the same set_up (`setUpSens` on the state the earlier set_ups left)
+        const SensSubsets ss = sens_subsets(cur, accH ? (!cur.tof || H->get_use_tofsens()) : cur.same_proj, n);
+        if (ss.ok)
+          {
+            std::string op = std::string("hsetup ") + (cur.c.use_subset_sens ? "1 " : "0 ") + std::to_string(n) + " "
+                             + (fo.call_setter ? (recompute ? "1" : "0") : "-") + " " + (fo.tot.empty() ? "0" : "1") + " " + (fo.sub.empty() ? "0" : "1") + " "
+                             + (ss.balanced ? "1" : "0") + " " + (accH && cur.tof && !H->get_use_tofsens() ? "1" : "0") + " " + std::to_string(cur.c.maxseg) + " "
+                             + std::to_string(cur.g.pdi->get_max_segment_num()) + " " + std::to_string(cur.c.maxtof) + " " + std::to_string(cur.tofmax_data);
+            for (int s = 0; s < n; ++s)
+              op += std::string(s ? " /" : "") + ids_str(ss.ids[s]);
+            o.line(op, std::string(accH ? "ok " : "refused ") + (H->get_recompute_sensitivity() ? "1" : "0"));
+          }
+      }
       if (accH != accF)
         o.fail(std::string("set_up of a re-used object ") + (accH ? "succeeds" : "fails") + " whereas set_up of a fresh object configured identically "
                + (accF ? "succeeds" : "fails") + ": " + ctx);
@@ -2270,7 +2334,9 @@ run_reuse(Out& o, const Case& base, const Case* other, vh::Rng& rng, int case_id
       const float c0 = rng.coin() ? 0.F : static_cast<float>(rng.range(1, 8)) * 0.25F;
       Record recH, recF;
       o.rec = &recH;
+      o.where = " [in " + ctx.substr(0, ctx.find(';')) + "]";
       check_object(o, cur, H.p, n, c0, recompute, hist);
+      o.where.clear();
       o.rec = nullptr;
       // what the object holds now, against the state of the model object
       for (int s = 0; s < n; ++s)
@@ -2401,6 +2467,8 @@ run_reuse(Out& o, const Case& base, const Case* other, vh::Rng& rng, int case_id
         ++hist["reuse-files-read-by-same-object"];
       prev_accepted = true;
       prev_wrote = writes || (!recompute && prev_wrote);
+      // (no public setter: a user's object keeps the TOF sensitivity switch as this set_up left it)
+      cur.c.use_tofsens = H->get_use_tofsens();
       remove_files("f");
     }
   remove_files("r");
